@@ -166,6 +166,134 @@ Proof. exact point3_move_spec. Qed.
 Print Assumptions C02_point3_move.
 
 (* the hypotheses are satisfiable by non-trivial data (3-4-5 angle, axis (1,2,2) of length 3) *)
+
+(* ---- how each shape class composes the kernels (proofs/C02_shapes.v, about the generated code): the image of the point at parameter t
+   of a segment / ray is the point at parameter t of the image; sphere surfaces go to sphere surfaces; the axis line of cylinders and
+   cones is carried pointwise (radius scaled, opening angle kept) *)
+From LBG Require Import G1_shapes G8_curve C02_shapes.
+
+Theorem C02_seg2_move_point_at : forall l m t,
+  Point2D_move (LineSegment2D_point_at l t) m =2= LineSegment2D_point_at (LineSegment2D_move l m) t.
+Proof. exact seg2_move_point_at. Qed.
+Print Assumptions C02_seg2_move_point_at.
+
+Theorem C02_seg2_rotate_point_at : forall qcos qsin l a o t,
+  Point2D_rotate qcos qsin (LineSegment2D_point_at l t) a o =2= LineSegment2D_point_at (LineSegment2D_rotate qcos qsin l a o) t.
+Proof. exact seg2_rotate_point_at. Qed.
+Print Assumptions C02_seg2_rotate_point_at.
+
+Theorem C02_seg2_reflect_point_at : forall l n o t,
+  Point2D_reflect (LineSegment2D_point_at l t) n o =2= LineSegment2D_point_at (LineSegment2D_reflect l n o) t.
+Proof. exact seg2_reflect_point_at. Qed.
+Print Assumptions C02_seg2_reflect_point_at.
+
+Theorem C02_seg2_scale_point_at : forall l k o t,
+  Point2D_scale (LineSegment2D_point_at l t) k o =2= LineSegment2D_point_at (LineSegment2D_scale l k o) t.
+Proof. exact seg2_scale_point_at. Qed.
+Print Assumptions C02_seg2_scale_point_at.
+
+Theorem C02_seg3_move_point_at : forall l m t,
+  Point3D_move (LineSegment3D_point_at l t) m =3= LineSegment3D_point_at (LineSegment3D_move l m) t.
+Proof. exact seg3_move_point_at. Qed.
+Print Assumptions C02_seg3_move_point_at.
+
+Theorem C02_seg3_rotate_point_at : forall qsqrt qcos qsin l axis a o t,
+  Point3D_rotate qsqrt qcos qsin (LineSegment3D_point_at l t) axis a o
+  =3= LineSegment3D_point_at (LineSegment3D_rotate qsqrt qcos qsin l axis a o) t.
+Proof. exact seg3_rotate_point_at. Qed.
+Print Assumptions C02_seg3_rotate_point_at.
+
+Theorem C02_seg3_rotate_xy_point_at : forall qcos qsin l a o t,
+  Point3D_rotate_xy qcos qsin (LineSegment3D_point_at l t) a o =3= LineSegment3D_point_at (LineSegment3D_rotate_xy qcos qsin l a o) t.
+Proof. exact seg3_rotate_xy_point_at. Qed.
+Print Assumptions C02_seg3_rotate_xy_point_at.
+
+Theorem C02_seg3_reflect_point_at : forall l n o t,
+  Point3D_reflect (LineSegment3D_point_at l t) n o =3= LineSegment3D_point_at (LineSegment3D_reflect l n o) t.
+Proof. exact seg3_reflect_point_at. Qed.
+Print Assumptions C02_seg3_reflect_point_at.
+
+Theorem C02_seg3_scale_point_at : forall l k o t,
+  Point3D_scale (LineSegment3D_point_at l t) k o =3= LineSegment3D_point_at (LineSegment3D_scale l k o) t.
+Proof. exact seg3_scale_point_at. Qed.
+Print Assumptions C02_seg3_scale_point_at.
+
+Theorem C02_sphere_move_surface : forall s q m,
+  on_sphere s q -> on_sphere (Sphere_move s m) (Point3D_move q m).
+Proof. exact sphere_move_surface. Qed.
+Print Assumptions C02_sphere_move_surface.
+
+Theorem C02_sphere_scale_surface : forall s q k o,
+  on_sphere s q -> on_sphere (Sphere_scale s k o) (Point3D_scale q k o).
+Proof. exact sphere_scale_surface. Qed.
+Print Assumptions C02_sphere_scale_surface.
+
+Theorem C02_sphere_reflect_surface : forall s q n o,
+  dot3 n n == 1 -> on_sphere s q -> on_sphere (Sphere_reflect s n o) (Point3D_reflect q n o).
+Proof. exact sphere_reflect_surface. Qed.
+Print Assumptions C02_sphere_reflect_surface.
+
+Theorem C02_sphere_rotate_surface : forall qsqrt qcos qsin s q axis a o,
+  qcos a * qcos a + qsin a * qsin a == 1 ->
+  qsqrt (v3x axis * v3x axis + v3y axis * v3y axis + v3z axis * v3z axis)
+    * qsqrt (v3x axis * v3x axis + v3y axis * v3y axis + v3z axis * v3z axis)
+    == v3x axis * v3x axis + v3y axis * v3y axis + v3z axis * v3z axis ->
+  ~ v3x axis * v3x axis + v3y axis * v3y axis + v3z axis * v3z axis == 0 ->
+  on_sphere s q -> on_sphere (Sphere_rotate qsqrt qcos qsin s axis a o) (Point3D_rotate qsqrt qcos qsin q axis a o).
+Proof. exact sphere_rotate_surface. Qed.
+Print Assumptions C02_sphere_rotate_surface.
+
+Theorem C02_cylinder_move_axis : forall s m t,
+  Point3D_move (axis_pt (cy_c s) (cy_axis s) t) m =3= axis_pt (cy_c (Cylinder_move s m)) (cy_axis (Cylinder_move s m)) t.
+Proof. exact cylinder_move_axis. Qed.
+Print Assumptions C02_cylinder_move_axis.
+
+Theorem C02_cylinder_rotate_axis : forall qsqrt qcos qsin s axis a o t,
+  Point3D_rotate qsqrt qcos qsin (axis_pt (cy_c s) (cy_axis s) t) axis a o
+  =3= axis_pt (cy_c (Cylinder_rotate qsqrt qcos qsin s axis a o)) (cy_axis (Cylinder_rotate qsqrt qcos qsin s axis a o)) t.
+Proof. exact cylinder_rotate_axis. Qed.
+Print Assumptions C02_cylinder_rotate_axis.
+
+Theorem C02_cylinder_reflect_axis : forall s n o t,
+  Point3D_reflect (axis_pt (cy_c s) (cy_axis s) t) n o
+  =3= axis_pt (cy_c (Cylinder_reflect s n o)) (cy_axis (Cylinder_reflect s n o)) t.
+Proof. exact cylinder_reflect_axis. Qed.
+Print Assumptions C02_cylinder_reflect_axis.
+
+Theorem C02_cylinder_scale_axis : forall s k o t,
+  Point3D_scale (axis_pt (cy_c s) (cy_axis s) t) k o
+  =3= axis_pt (cy_c (Cylinder_scale s k o)) (cy_axis (Cylinder_scale s k o)) t
+  /\ cy_r (Cylinder_scale s k o) == cy_r s * k.
+Proof. exact cylinder_scale_axis. Qed.
+Print Assumptions C02_cylinder_scale_axis.
+
+Theorem C02_cone_move_axis : forall s m t,
+  Point3D_move (axis_pt (co_vertex s) (co_axis s) t) m =3= axis_pt (co_vertex (Cone_move s m)) (co_axis (Cone_move s m)) t
+  /\ co_angle (Cone_move s m) = co_angle s.
+Proof. exact cone_move_axis. Qed.
+Print Assumptions C02_cone_move_axis.
+
+Theorem C02_cone_rotate_axis : forall qsqrt qcos qsin s axis a o t,
+  Point3D_rotate qsqrt qcos qsin (axis_pt (co_vertex s) (co_axis s) t) axis a o
+  =3= axis_pt (co_vertex (Cone_rotate qsqrt qcos qsin s axis a o)) (co_axis (Cone_rotate qsqrt qcos qsin s axis a o)) t
+  /\ co_angle (Cone_rotate qsqrt qcos qsin s axis a o) = co_angle s.
+Proof. exact cone_rotate_axis. Qed.
+Print Assumptions C02_cone_rotate_axis.
+
+Theorem C02_cone_reflect_axis : forall s n o t,
+  Point3D_reflect (axis_pt (co_vertex s) (co_axis s) t) n o
+  =3= axis_pt (co_vertex (Cone_reflect s n o)) (co_axis (Cone_reflect s n o)) t
+  /\ co_angle (Cone_reflect s n o) = co_angle s.
+Proof. exact cone_reflect_axis. Qed.
+Print Assumptions C02_cone_reflect_axis.
+
+Theorem C02_cone_scale_axis : forall s k o t,
+  Point3D_scale (axis_pt (co_vertex s) (co_axis s) t) k o
+  =3= axis_pt (co_vertex (Cone_scale s k o)) (co_axis (Cone_scale s k o)) t
+  /\ co_angle (Cone_scale s k o) = co_angle s.
+Proof. exact cone_scale_axis. Qed.
+Print Assumptions C02_cone_scale_axis.
+
 Example C02_hypotheses_satisfiable :
   let qc := fun _ : Q => 3 # 5 in let qs := fun _ : Q => 4 # 5 in let sq := fun _ : Q => 3 in
   let axis := mkV3 1 2 2 in
